@@ -79,6 +79,20 @@ def run(rep, tier, seed):
             one(b, cm, nrs, randbits(rnd, rnd.randint(0, 2000)), rnd.choice([L, R]), 'random')
             one(b, cm, nrs, rnd.choice(nrs)['id'] + randbits(rnd, rnd.randint(0, 300)), rnd.choice([L, R]), 'id+random')
         one(b, cm, nrs, '', L, 'empty')
+        if i % 5 == 0:
+            # a rule of fragmentation nature shares the id space: a frame that starts with its id is dispatched to it by id alone;
+            # it has no descriptors, so everything after the id comes back
+            from microschc.rfc8724 import RuleDescriptor as _RD, RuleNature as _RN
+            from schc_util import prefix_free_ids as _pf
+            used_ = [nr['id'] for nr in nrs]
+            for _ in range(30):
+                cand = randbits(rnd, rnd.randint(2, 10))
+                if all(not cand.startswith(u) and not u.startswith(cand) for u in used_):
+                    rules.append(_RD(id=mk(cand, rnd.choice([L, R])), nature=_RN.FRAGMENTATION))
+                    nrs = [n_rule(r) for r in rules]
+                    for _k in range(3):
+                        one(b, cm, nrs, cand + randbits(rnd, rnd.randint(0, 120)), rnd.choice([L, R]), 'fragmentation-rule-id')
+                    break
         # the rule set is re-provisioned in place (same rule objects, other well-formed descriptors) and the same manager goes on
         if i % 2 == 0:
             _, _, _, pd2 = gen_parsed(rnd, stack)
